@@ -76,6 +76,9 @@ typedef struct vnacal_new_parameter {
     /* next parameter in hash chain */
     struct vnacal_new_parameter *vnpr_hash_next;
 
+    /* number of parameters that were in the hash when this one was added */
+    int vnpr_serial;
+
 } vnacal_new_parameter_t;
 
 #define vnpr_unknown_index	u.vnpr_unknown.unknown_index
@@ -582,6 +585,11 @@ static inline double complex vs_get_v(vnacal_new_solve_state_t *vnssp)
 /* _vnacal_new_get_parameter: add/find parameter and return held */
 extern vnacal_new_parameter_t *_vnacal_new_get_parameter(
 	const char *function, vnacal_new_t *vnp, int parameter);
+
+/* _vnacal_new_rollback_parameters: remove parameters added since a mark */
+extern void _vnacal_new_rollback_parameters(vnacal_new_t *vnp,
+	int hash_count, int unknown_parameters, int correlated_parameters,
+	vnacal_new_parameter_t **unknown_parameter_anchor);
 
 /* _vnacal_new_init_parameter_hash: set up the parameter hash */
 extern int _vnacal_new_init_parameter_hash(const char *function,
